@@ -1,6 +1,7 @@
 package main
 
 import (
+	"time"
 	"fmt"
 	"strings"
 
@@ -233,6 +234,19 @@ func runLexCase(c *Ctx, kind string, lexs []lexeme) {
 	if kind == "E" {
 		op = tokcLine("e", 0, c13CfgOps, input)
 		ts, st = tokenizeCfg("e", 0, c13CfgOps, input)
+	} else if kind == "E2" {
+		// the same configuration applied to a tokenizer that was USED before (on a text with the characters concerned)
+		op = tokcLine("e", 0, c13CfgOps, input)
+		st = safeCallT(5*time.Second, func() string {
+			t := newTokenizer("e").(cfgTokzr)
+			setOpts(t, 0)
+			t.TokenizeBuffer("я2 + ядро λ1 世 Δ")
+			for _, o := range c13CfgOps {
+				applyCfgOp(t, o)
+			}
+			ts = conv(t.TokenizeBuffer(string(input)))
+			return ""
+		})
 	} else if kind == "Y4" || kind == "Z4" {
 		// user-registered symbols of four and five characters whose longer proper prefixes are not symbols
 		k := map[string]string{"Y4": "e", "Z4": "g"}[kind]
@@ -290,6 +304,10 @@ func propC13(c *Ctx) {
 		if i%10 == 9 {
 			kind = "E"
 		}
+		runKind := kind
+		if i%20 == 19 {
+			runKind = "E2"
+		}
 		sepKind := strings.ToLower(kind)
 		k := 1 + c.Rng.Intn(10)
 		if c.Thorough && c.Rng.Intn(50) == 0 {
@@ -312,7 +330,11 @@ func propC13(c *Ctx) {
 			}
 			lexs = append(lexs, l)
 		}
-		runLexCase(c, kind, lexs)
+		runLexCase(c, runKind, lexs)
+	}
+	for _, let := range []string{"Ж", "ц", "λ", "Δ", "я"} {
+		runLexCase(c, "E2", []lexeme{{let + "2", tokenizers.Word}, {" ", tokenizers.Whitespace}, {"+", tokenizers.Symbol}, {" ", tokenizers.Whitespace}, {let + "дро", tokenizers.Word}})
+		runLexCase(c, "E2", []lexeme{{let, tokenizers.Word}})
 	}
 	// configured letters next to characters of the ranges they were carved out of, in both orders
 	W, S, Sp := tokenizers.Word, tokenizers.Symbol, tokenizers.Whitespace
